@@ -84,9 +84,9 @@ def handleBmp (cmd : String) (args : List String) : Option String :=
       pure (match Bmp.read b with
         | .ok f =>
           (match write f with
-           | .ok w => dump f ++ " W=" ++ showB w ++ " R=" ++ showOut dump (Bmp.read w)
+           | .ok w => dump f ++ " v=" ++ showOut okStr (validate f) ++ " W=" ++ showB w ++ " R=" ++ showOut dump (Bmp.read w)
            | .fault _ => "fault:model"
-           | .err _ => dump f ++ " W=err")
+           | .err _ => dump f ++ " v=" ++ showOut okStr (validate f) ++ " W=err")
         | o => showOut dump o)
   | "bmp.create", [v, bits, w, h, pal, pix] => do
       let v ← nat? v; let bits ← nat? bits; let w ← nat? w; let h ← int? h
